@@ -3,7 +3,11 @@
    the shape of their results; panics of the Rust code and wall-clock time are explored by the stream `total`
    (see lib/c07.py and DESIGN.md: the level claimed for C07 is partial). *)
 
-From SwiftMT Require Import Base.Bytes Base.StrOps Legacy.Block4Map Legacy.Total Fmt.Model Fmt.Facts Headers.Hdr12 Headers.Hdr12Facts.
+From Coq Require Import Strings.String.
+From SwiftMT Require Import Base.Bytes Base.StrOps Legacy.Block4Map Legacy.Total Fmt.Model Fmt.Facts Headers.Hdr12 Headers.Hdr12Facts Engine.Layout Engine.Tokens Engine.Extract Engine.Total Engine.TotalInstance Engine.Instance.
+
+Local Open Scope string_scope.
+Local Open Scope list_scope.
 
 (* the field-map tokeniser terminates on every text: entries or the structured "malformed field tag" error, never out of fuel *)
 Theorem C07_tokeniser_total : forall b, parse_block4_fields b <> TOutOfFuel.
@@ -20,7 +24,52 @@ Proof. intros f s. destruct (accepts f s); [left | right]; reflexivity. Qed.
 Theorem C07_header_outcomes : forall s, (parse_b1 s = None \/ exists h, parse_b1 s = Some h) /\ (parse_b2 s = None \/ exists h, parse_b2 s = Some h).
 Proof. intro s. split; [destruct (parse_b1 s) as [h|] | destruct (parse_b2 s) as [h|]]; try (right; eexists; reflexivity); left; reflexivity. Qed.
 
+(* the cursor interpreter (the 30 parse_from_block4 bodies as regenerated) answers on EVERY byte string: with
+   enough fuel the outcome is accept, reject or stuck, never out of fuel.  The byte cursor is field_extractor.rs /
+   MessageParser as transcribed (Engine/Extract.v); the measure is the length of the remaining text, which every
+   successful extraction strictly shortens; every regenerated loop has a mandatory consuming call at the top level
+   of its body (checked on the regenerated layouts by computation: gen_layouts_progress). *)
+Theorem C07_layouts_terminate_on_every_text : forall fparse T L (text : bytes), In (T, L) all_layouts ->
+  exists f, forall g, f <= g -> brun fparse g L text <> OutOfFuel.
+Proof. exact layout_never_out_of_fuel_bytes. Qed.
+
+Theorem C07_layouts_terminate_on_every_token_list : forall fparse T L toks, In (T, L) all_layouts ->
+  exists f, forall g, f <= g -> trun fparse g L toks <> OutOfFuel.
+Proof. exact layout_never_out_of_fuel. Qed.
+
+(* the general statement behind both: any cursor whose extraction shrinks a size, any layout whose loops progress *)
+Theorem C07_progress_implies_termination :
+  forall (C : Type) (detect : C -> bytes -> bool) (extract : C -> bytes -> option (bytes * C)) (complete : C -> bool) (size : C -> nat),
+  (forall c tag x c', extract c tag = Some (x, c') -> size c' < size c) ->
+  forall fparse ss (s : st C), loops_ok ss = true ->
+  exists f, forall g, f <= g -> exec C detect extract complete fparse g ss s <> FOutOfFuel C.
+Proof. exact exec_terminates. Qed.
+
+(* an explicit, linear bound: fuel = size of the layout + length of the text + 1 is enough for any cursor, and the
+   fuel the extracted runner uses for the correspondence (4 * length + 2000) is enough for all 30 layouts *)
+Theorem C07_linear_fuel_is_enough :
+  forall (C : Type) (detect : C -> bytes -> bool) (extract : C -> bytes -> option (bytes * C)) (complete : C -> bool) (size : C -> nat),
+  (forall c tag x c', extract c tag = Some (x, c') -> size c' < size c) ->
+  forall fparse f ss (s : st C), loops_ok ss = true -> lsize ss + size (cur s) + 1 <= f ->
+  exec C detect extract complete fparse f ss s <> FOutOfFuel C.
+Proof. exact exec_fuel_bound. Qed.
+
+Theorem C07_runner_fuel_is_enough : forall fparse T L (text : bytes), In (T, L) all_layouts ->
+  forall g, 4 * List.length text + 2000 <= g -> brun fparse g L text <> OutOfFuel.
+Proof. exact runner_fuel_suffices. Qed.
+
+(* the syntactic condition is needed: a loop without a mandatory call runs out of every fuel *)
+Theorem C07_no_progress_loop_diverges : forall fparse f,
+  texec fparse f [SWhile (CNot (CDetect (bs "20"))) []] (init (list tok) []) = FOutOfFuel _.
+Proof. exact no_progress_loop_diverges. Qed.
+
 Print Assumptions C07_tokeniser_total.
 Print Assumptions C07_tokeniser_loop_progress.
 Print Assumptions C07_recogniser_decides.
 Print Assumptions C07_header_outcomes.
+Print Assumptions C07_layouts_terminate_on_every_text.
+Print Assumptions C07_layouts_terminate_on_every_token_list.
+Print Assumptions C07_progress_implies_termination.
+Print Assumptions C07_no_progress_loop_diverges.
+Print Assumptions C07_linear_fuel_is_enough.
+Print Assumptions C07_runner_fuel_is_enough.
